@@ -596,6 +596,9 @@ class Run:
         tags = ctx['step'].get('tags', [])
         if props in (['C04'], ['C03']):
             tags = [t for t in tags if t == 'C14']
+        if props == ['C05']:
+            # redundant work is not a breach of the build_file contract
+            tags = [t for t in tags if t != 'C10']
         for t in tags:
             if t not in props:
                 props.append(t)
